@@ -19,6 +19,8 @@ RULE = (
     'Categoricals with unsorted categories; the block clause on three successive new frames, on new frames '
     'with an unseen level of g / of h (silent mode, every term read through matrix[name]) and on a second '
     'design built from the same text on other data. '
+    'Later: ordered Categoricals with a declared order, unseen groups of g / h / k in silent mode, day-stamp '
+    'float group ids, level lists reversed by the caller. '
 )
 ASSUMPTIONS = [
     "rank decisions by SVD with a gap check",
